@@ -73,11 +73,18 @@ func runC06(p *Prog, r *Result) {
 	checkConstIndexes(p, r, pkg, "syntax", "R06i", c06IndexExceptions)
 	r.Rule("R06l", "an error stored without a token (fill) is turned into _EOF by the epilogue of both token producers on every fall-through path — the premise of R06h's `reports an error` exits", 2)
 	checkErrorReachesToken(p, r, pkg, "R06l")
-	r.Rule("R06m", "every recursion cycle among the parser's methods compares a depth counter with a limit (unbounded nesting ends in a fatal stack overflow)", 1)
+	r.Rule("R06m", "every recursion cycle among the parser's methods compares a depth counter with a limit (unbounded nesting ends in a fatal stack overflow); no function of the lexer calls itself (repetition is not nesting)", 16)
 	checkRecursionBounded(p, r, pkg, "R06m")
+	r.Rule("R06n", "every field that Walk, Pos or End dereferences without a nil test holds a value that is not nil wherever package syntax builds the node, unless an error was reported by then", 30)
+	checkMandatoryFieldsSet(p, r, pkg, "R06n", c06NilExceptions)
+	r.Rule("R06o", "the here-document body reader reads input only with a body pending: a parse over a pipe or terminal does not wait for a byte it has no use for (shared with C08 R08h)", 5)
+	checkBodyReaderNeedsBody(p, r, pkg, "R06o")
 	r.Rule("R06k", "the read buffer is indexed at the cursor only past a test of the cursor against its length or past a non-zero fill(); fill stores the cursor only as 0 (or under a length test)", 5)
 	checkCursorContract(p, r, pkg, "R06k")
 }
+
+// c06NilExceptions: obligation -> why the value is not nil there.
+var c06NilExceptions = map[string]string{}
 
 // c06IndexExceptions: function#indexed value -> the invariant relied upon. Reasoned, not proven; a triage run of
 // 342 420 parses of prefixes and one-byte mutations (tools/triage) found no panic at any of them after the fixes of §4.
@@ -963,8 +970,61 @@ func checkFillGuards(p *Prog, r *Result, pkg *packages.Package) {
 
 func checkBackwardOffsets(p *Prog, r *Result, pkg *packages.Package) {
 	info := pkg.TypesInfo
-	exceptions := map[string]string{
-		"newLit": "slices the bytes of the multi-byte rune just decoded; rune() advanced bsp by exactly that width and nothing refilled since (C07 R07a decides the no-refill part)",
+	exceptions := map[string]string{}
+	// newLit slices the bytes of the rune just read. That is in range when it steps back by p.w, the width rune()
+	// stored when it advanced the cursor — and not by a width worked out again from the rune's value: an invalid
+	// byte decodes to utf8.RuneError, which is one byte in the input and three when encoded.
+	widthProof := func(fd *ast.FuncDecl, sub ast.Expr) (string, bool) {
+		if fd.Name.Name != "newLit" {
+			return "", false
+		}
+		if fv := selectorField(info, stripConv(info, sub)); fv == nil || fv.Name() != "w" {
+			return "the width is not p.w: a width derived from the rune's value is 3 for utf8.RuneError, but an invalid byte moved the cursor by 1 (when the error report is a no-op because a read error is already recorded, that rune reaches newLit)", false
+		}
+		rfd := p.FuncDecl("syntax", "Parser.rune")
+		if rfd == nil {
+			return "Parser.rune not found", false
+		}
+		rg := NewFGraph(info, rfd.Body, nil)
+		paired := 0
+		okAll := true
+		inspectNoLit(rfd.Body, func(n ast.Node) bool {
+			as, isAs := n.(*ast.AssignStmt)
+			if !isAs || as.Tok != token.ADD_ASSIGN || len(as.Lhs) != 1 {
+				return true
+			}
+			if fv := selectorField(info, as.Lhs[0]); fv == nil || fv.Name() != "bsp" {
+				return true
+			}
+			id, isID := stripConv(info, as.Rhs[0]).(*ast.Ident)
+			if !isID {
+				return true // a constant step on the ASCII paths; newLit's multi-byte case is not reached from them
+			}
+			blk, i := rg.BlockOf(as)
+			if blk == nil {
+				okAll = false
+				return true
+			}
+			hit, _ := rg.MustPass(blk, i, rg.Exit, func(m ast.Node) bool {
+				a2, isAs2 := m.(*ast.AssignStmt)
+				if !isAs2 || a2.Tok != token.ASSIGN || len(a2.Lhs) != 1 || len(a2.Rhs) != 1 {
+					return false
+				}
+				fv := selectorField(info, a2.Lhs[0])
+				id2, isID2 := ast.Unparen(a2.Rhs[0]).(*ast.Ident)
+				return fv != nil && fv.Name() == "w" && isID2 && info.ObjectOf(id2) == info.ObjectOf(id)
+			}, nil)
+			if hit {
+				paired++
+			} else {
+				okAll = false
+			}
+			return true
+		})
+		if paired == 0 || !okAll {
+			return "rune() advances the cursor by a decoded width without storing that width in p.w on every path", false
+		}
+		return "steps back by p.w, which rune() sets to the very width it advanced the cursor by on every path after decoding (nothing refills in between: C07 R07a)", true
 	}
 	for _, fd := range p.AllFuncDecls("syntax") {
 		var g *FGraph
@@ -990,6 +1050,11 @@ func checkBackwardOffsets(p *Prog, r *Result, pkg *packages.Package) {
 					continue
 				}
 				key := fmt.Sprintf("%s#p.bs[… p.bsp - %s …]", funcKey("syntax", fd), exprString(sub))
+				if fd.Name.Name == "newLit" {
+					why, ok := widthProof(fd, sub)
+					r.Check(ok, "R06f", key, ie.Pos(), why, "newLit slices the read buffer back from the cursor: "+why)
+					continue
+				}
 				if why, ok := exceptions[fd.Name.Name]; ok {
 					r.OK("R06f", key, ie.Pos(), "exception: "+why)
 					r.Except("syntax.(Parser)."+fd.Name.Name, why)
@@ -1054,6 +1119,20 @@ func findBspMinus(info *types.Info, fd *ast.FuncDecl, e ast.Expr) ast.Expr {
 }
 
 var c06Controls = []Control{
+	{Name: "token-after-a-comment-read-by-recursion", Rule: "R06m", WantKey: "next#a lexer function does not call itself", File: "syntax/lexer.go",
+		Mutate: ctlReplaceAnywhere("\t\t\tgoto restart\n", "\t\t\tp.next()\n")},
+	{Name: "literal-start-width-from-the-rune-value", Rule: "R06f", WantKey: "newLit#p.bs", File: "syntax/lexer.go",
+		Mutate: ctlReplaceAnywhere("p.bs[p.bsp-uint(p.w):p.bsp]...)", "p.bs[p.bsp-uint(utf8.RuneLen(r)):p.bsp]...)")},
+	{Name: "fill-empties-the-buffer-at-eof", Rule: "R06k", WantKey: "fill#store 1 to p.bs keeps the unread bytes", File: "syntax/lexer.go",
+		Mutate: ctlReplaceAnywhere("\tif p.readEOF || p.r == runeEOF {\n", "\tif p.readEOF {\n\t\tp.offs += int64(p.bsp)\n\t\tp.bs, p.bsp = nil, 0\n\t\treturn 0\n\t}\n\tif p.r == runeEOF {\n")},
+	{Name: "missing-operand-recovered-without-a-stand-in", Rule: "R06n", WantKey: "arithmExprBinary#value.Y", File: "syntax/parser_arithm.go",
+		Mutate: ctlReplaceAnywhere("\t\ty := nextOp(compact)\n\t\tif y == nil {\n", "\t\ty := nextOp(compact)\n\t\tif y == nil && !p.recoverError() {\n")},
+	{Name: "test-clause-without-an-expression-accepted", Rule: "R06n", WantKey: "testClause#tc.X", File: "syntax/parser.go",
+		Mutate: ctlReplaceAnywhere("\tif tc.X = p.testExprBinary(false); tc.X == nil {\n\t\tp.followErrExp(tc.Left, dblLeftBrack)\n\t}\n", "\ttc.X = p.testExprBinary(false)\n")},
+	{Name: "increment-of-a-missing-literal-recovered", Rule: "R06n", WantKey: "arithmExprValue#ue.X", File: "syntax/parser_arithm.go",
+		Mutate: ctlReplaceAnywhere("\t\tif p.tok != _LitWord {\n\t\t\tp.followErr(ue.OpPos, ue.Op, noQuote(\"a literal\"))", "\t\tif p.tok != _LitWord && !p.recoverError() {\n\t\t\tp.followErr(ue.OpPos, ue.Op, noQuote(\"a literal\"))")},
+	{Name: "coproc-takes-time-for-a-compound-command", Rule: "R06n", WantKey: "coprocClause#cc.Stmt", File: "syntax/parser.go",
+		Mutate: ctlReplaceAnywhere("\t\t\t\"coproc\", \"let\", \"function\", \"declare\", \"local\",\n", "\t\t\t\"coproc\", \"let\", \"function\", \"declare\", \"local\", \"!\",\n")},
 	{Name: "token-producer-drops-its-error-epilogue", Rule: "R06l", WantKey: "nextKeepSpaces#a stored error forces the token", File: "syntax/lexer.go",
 		Mutate: ctlReplaceAnywhere("\t\t\tp.advanceLitOther(r)\n\t\t}\n\t}\n\tif p.err != nil {\n\t\tp.tok = _EOF\n\t}\n}\n\nfunc (p *Parser) next() {", "\t\t\tp.advanceLitOther(r)\n\t\t}\n\t}\n}\n\nfunc (p *Parser) next() {")},
 	{Name: "let-with-only-redirects-accepted", Rule: "R06i", WantKey: "(LetClause).End#l.Exprs", File: "syntax/parser.go",
